@@ -13,13 +13,13 @@ pub(crate) fn radio_wl(hp: bool) -> Sx126x<MockSpi, MockIv, Stm32wl> {
     Sx126x::new(MockSpi::new(), MockIv::new(), Config { chip: Stm32wl { use_high_power_pa: hp }, tcxo_ctrl: None, use_dcdc: kani::any(), rx_boost: kani::any() })
 }
 
-//@h id=ldro_rule_sx126x props=C15 tier=quick build=phy cost=30 timeout=900
-//@bounds all 8 SF x 10 BW x 4 CR, any frequency >= 400 MHz: decision of create_modulation_params and byte 4 of the SetModulationParams command
-//@encodes Sx126x::create_modulation_params, Sx126x::set_modulation_params, spreading_factor_value, bandwidth_value, coding_rate_value
+//@h id=ldro_rule_sx126x props=C15 tier=quick build=phy cost=20 timeout=900
+//@bounds all 8 SF x 10 BW x 4 CR, any frequency >= 400 MHz: LDRO decision of Sx126x::create_modulation_params
+//@encodes Sx126x::create_modulation_params, spreading_factor_value, bandwidth_value, coding_rate_value
 #[kani::proof]
 #[kani::unwind(26)]
 fn ldro_rule_sx126x() {
-    let mut r = radio_1262();
+    let r = radio_1262();
     let (sf, bw, cr) = (any_sf(), any_bw(), any_cr());
     let f: u32 = kani::any();
     kani::assume(f >= 400_000_000);
@@ -28,14 +28,26 @@ fn ldro_rule_sx126x() {
             kani::cover!(mp.low_data_rate_optimize == 1, "ldro on");
             kani::assert((mp.low_data_rate_optimize != 0) == ref_ldro(sf, bw), "C15: SX126x LDRO decision differs from 2^SF/BW >= 16.38 ms");
             kani::assert(mp.low_data_rate_optimize <= 1, "C15: LDRO flag is 0/1");
-            let res = block_on(r.set_modulation_params(&mp));
-            kani::assert(res.is_ok(), "set_modulation_params failed on a fault-free bus");
-            let t = &spi().t[0];
-            kani::assert(t.w[0] == 0x8B && t.wlen == 5, "C13/C15: SetModulationParams opcode + 4 parameters");
-            kani::assert(t.w[4] == if ref_ldro(sf, bw) { 1 } else { 0 }, "C15: LDRO byte programmed into the SX126x");
         }
         Err(_) => kani::assert(false, "C15: every (SF, BW) pair is supported by the SX126x"),
     }
+}
+
+//@h id=ldro_bit_sx126x props=C15,C13 tier=quick build=phy cost=60 timeout=900
+//@bounds SX126x set_modulation_params with the LDRO flag symbolic (SF12/125 kHz, any CR): byte 4 of SetModulationParams equals the flag
+//@encodes Sx126x::set_modulation_params
+#[kani::proof]
+#[kani::unwind(26)]
+fn ldro_bit_sx126x() {
+    let mut r = radio_1262();
+    let ldro: bool = kani::any();
+    let mp = ModulationParams { spreading_factor: SpreadingFactor::_12, bandwidth: Bandwidth::_125KHz, coding_rate: any_cr(), low_data_rate_optimize: ldro as u8, frequency_in_hz: 868_100_000 };
+    let res = block_on(r.set_modulation_params(&mp));
+    kani::assert(res.is_ok(), "set_modulation_params failed on a fault-free bus");
+    let t = &spi().t[0];
+    kani::assert(t.w[0] == 0x8B && t.wlen == 5, "C13/C15: SetModulationParams opcode + 4 parameters");
+    kani::assert(t.w[1] == 0x0C && t.w[2] == 0x04, "C13: SF12 / 125 kHz parameter codes");
+    kani::assert(t.w[4] == ldro as u8, "C15: LDRO byte programmed into the SX126x");
 }
 
 // ---- C17: PA configuration decodes to the requested power -------------------------------------
